@@ -471,6 +471,29 @@ def r1_4(ctx: Ctx, rule="R1.4"):
                     okn = okn and bool(key) and norm(key[0].targets[0].slice) == "hash(%s)" % var
     if call and (call[0].args or call[0].keywords) and not two_explicit:
         read_ = True                 # closest_atoms(n) with n other than 2: refuted as before
+    if not call:
+        # no call of closest_atoms at all: if the neighbour indices are chosen by looking at coordinates (distances), the frame
+        # neighbours depend on the conformation - not the two lowest-numbered bonded atoms
+        fb_calls = [c for c in calls_in(g.node) if call_name(c) == em.fb.name]
+        arg = _resolve_local(g.node, fb_calls[0].args[0]) if fb_calls and fb_calls[0].args else None
+        if isinstance(arg, (ast.List, ast.Tuple)) and len(arg.elts) == 3:
+            idx_names = set()
+            for e_ in arg.elts[1:]:
+                for x_ in ast.walk(e_):
+                    if isinstance(x_, ast.Subscript) and isinstance(x_.slice, ast.Name):
+                        idx_names.add(x_.slice.id)
+            geo = False
+            for s_ in walk_no_nested(g.node):
+                if isinstance(s_, ast.Assign) and any(isinstance(t_, ast.Name) and t_.id in idx_names for tt_ in s_.targets for t_ in ast.walk(tt_)):
+                    src_ = _resolve_local(g.node, s_.value)
+                    txt_ = norm(src_) + " " + " ".join(norm(d_.value) for d_ in walk_no_nested(g.node) if isinstance(d_, ast.Assign)
+                                                        and any(isinstance(n_, ast.Name) and n_.id in {x.id for x in ast.walk(src_) if isinstance(x, ast.Name)}
+                                                                for tt_ in d_.targets for n_ in ast.walk(tt_)))
+                    if any(k_ in txt_ for k_ in ("euclidean", "norm(", "cdist", ".position", "distance")):
+                        geo = True
+            if geo:
+                read_ = True
+                okn = False
     if not read_:
         ctx.ob(rule, g, call[0] if call else "frame points", True,
                "the three points handed to the frame builder are not written as [anchor.position, molecule[i1].position, "
